@@ -1,15 +1,26 @@
 import WowVerif.Driver
 open WowVerif.Driver
 
-partial def loop (hin : IO.FS.Stream) (hout : IO.FS.Stream) : IO Unit := do
+partial def loop (hin : IO.FS.Stream) (hout : IO.FS.Stream) (st : DState) : IO Unit := do
   let line ← hin.getLine
   if line.isEmpty then return ()
   let ws := (line.trimAscii.toString.splitOn " ").filter (· ≠ "")
-  hout.putStrLn (handle ws)
-  loop hin hout
+  match ws with
+  | ["load", path] =>
+    let txt ← IO.FS.readFile path
+    let st' := (txt.splitOn "\n").foldl loadLine st
+    hout.putStrLn s!"loaded {st'.corpus.size}"
+    hout.flush
+    loop hin hout st'
+  | _ =>
+    match semHandle st ws with
+    | some r => hout.putStrLn r
+    | none => hout.putStrLn (handle ws)
+    hout.flush
+    loop hin hout st
 
 def main : IO Unit := do
   let hin ← IO.getStdin
   let hout ← IO.getStdout
-  loop hin hout
+  loop hin hout {}
   hout.flush
